@@ -467,6 +467,7 @@ def run(ctx: Ctx):
         _strided_windows(ctx, rel)
     _sos_renamed_in_every_order(ctx, rel)
     _history_window_table(ctx, rel)
+    _sos_compared_before_the_narrow_cast(ctx, rel)
     _arpa_table(ctx)
 
     _offset_width_headroom(ctx, rel)
@@ -583,6 +584,36 @@ def _sos_renamed_in_every_order(ctx: Ctx, rel: str):
            rel, blk.lineno, sample=dict(sites=len(visits)))
 
 
+def _sos_compared_before_the_narrow_cast(ctx: Ctx, rel: str):
+    """S11b: the history is cast to the (narrow) id type of the trie - uint8 for small vocabularies - AFTER the out-of-vocabulary start
+    symbol has been re-keyed to the id V: compared after the cast, a start symbol such as 256 wraps to 0 and every real token 0 of the
+    history is read as the start symbol. Def-use: the tensor compared with `sos` does not derive from a `.to(<tensor>.dtype)` cast."""
+    col, pkg = ctx.col, ctx.pkg
+    kern = pkg.func(f"{MOD}::{KERNEL}")
+    rd = ReachingDefs(kern.node)
+    sosn = next((p_.name for p_ in kern.params if p_.name == "sos"), None)
+    if sosn is None:
+        raise AnalysisError("C06: the kernel has no sos formal")
+    sites = []
+    for n in own_nodes(kern.node):
+        recv = None
+        if isinstance(n, ast.Call) and isinstance(n.func, ast.Attribute) and n.func.attr in ("eq", "ne") and len(n.args) == 1 and u(n.args[0]) == sosn:
+            recv = n.func.value
+        elif isinstance(n, ast.Compare) and len(n.ops) == 1 and isinstance(n.ops[0], (ast.Eq, ast.NotEq)) and sosn in (u(n.left), u(n.comparators[0])):
+            recv = n.comparators[0] if u(n.left) == sosn else n.left
+        if recv is None or isinstance(recv, ast.Constant):
+            continue
+        casts = [c for c in list(rd.derives(recv).calls()) + [x for x in ast.walk(recv) if isinstance(x, ast.Call)]
+                 if isinstance(c.func, ast.Attribute) and c.func.attr in ("to", "type") and any(isinstance(a_, ast.Attribute) and a_.attr == "dtype" for a_ in c.args)]
+        sites.append((n, casts))
+    col.floor("sos_comparisons_in_the_kernel", len(sites), 1)
+    bad = [(n, cs) for n, cs in sites if cs]
+    col.ob("G21", "S11", f"{rel}::{KERNEL}::start-symbol-compared-before-the-narrow-cast", not bad,
+           (f"`{u(bad[0][0])[:60]}` compares the history with the start symbol after `{u(bad[0][1][0])[:40]}`: in the trie's narrow id type an "
+            f"out-of-vocabulary start symbol wraps around (256 -> 0) and real tokens of the history are taken for it") if bad else "", rel,
+           bad[0][0].lineno if bad else kern.line, sample=len(sites))
+
+
 def _history_window_table(ctx: Ctx, rel: str):
     """S11 by value: the head of the kernel - up to the statement that selects the context window, in its scalar-index and its
     per-element-index arm - is interpreted over exact values (sa/interp.py + sa/teval.py): for a history of 5 steps x 2 sequences with
@@ -673,6 +704,14 @@ def _arpa_table(ctx: Ctx):
     lines = [l + "\n" for l in text.split("\n")]
     listed = [{"a": (-1.5, -0.25), "b": (-0.75, 0.0), "c": (-2.0, -0.1)}, {("a", "b"): (-0.5, -0.125), ("b", "c"): (-0.25, 0.0)}, {("a", "b", "c"): -0.0625}]
     ids = {"a": 0, "b": 1, "c": 2}
+    # the same table over a vocabulary of digit strings: a word that reads as a number is a word, not a back-off weight, when the
+    # entry has exactly as many fields as its order
+    digits = {"a": "0", "b": "1", "c": "2"}
+    text2 = text
+    for k_, v_ in digits.items():
+        text2 = text2.replace(f" {k_}", f" {v_}")
+    lines2 = [l + "\n" for l in text2.split("\n")]
+    listed2 = [{(digits[k] if isinstance(k, str) else tuple(digits[x] for x in k)): v for k, v in d.items()} for d in listed]
 
     def leaf(e, env):
         if isinstance(e, ast.Call) and call_name(e) == "warnings.warn":
@@ -686,8 +725,8 @@ def _arpa_table(ctx: Ctx):
     names = [a.arg for a in f.args.args]
     bad, n = None, 0
     try:
-        for base_e in (False, True):
-            for t2i in (None, ids):
+        for base_e, t2i, lines, listed in [(b_, t_, lines, listed) for b_ in (False, True) for t_ in (None, ids)] + [(False, None, lines2, listed2)]:
+            if True:
                 scale = math.log(10.0) if base_e else 1.0
 
                 def key(k):
